@@ -181,6 +181,8 @@ impl OligoComputer {
             .unwrap();
         let records_arc = Arc::new(Mutex::new(records));
 
+        #[cfg(kmertools_verif)]
+        ktio::verif::section_begin("oligo-mmap", self.threads);
         pool.scope(|scope| {
             let mm_slice: MMWriter<u8> = MMWriter::new(&mut mmap[..]);
             if self.header {
@@ -193,7 +195,11 @@ impl OligoComputer {
                 let header_len = header.len();
                 scope.spawn(move |_| {
                     loop {
+                        #[cfg(kmertools_verif)]
+                        ktio::verif::sched_point("take", -1);
                         let record = { records_arc_clone.lock().unwrap().next() };
+                        #[cfg(kmertools_verif)]
+                        ktio::verif::note("took", record.as_ref().map(|r| r.n as i64).unwrap_or(-1));
                         if let Some(record) = record {
                             let kvec = self.vectorise_one(&record.seq);
                             // optimise this with pre-sized string
@@ -203,11 +209,15 @@ impl OligoComputer {
                                 .collect();
                             let kvec_str = format!("{}\n", kvec_str.join(&self.delim));
                             let start_pos = kvec_str.len() * record.n;
+                            #[cfg(kmertools_verif)]
+                            ktio::verif::sched_point("write", record.n as i64);
                             unsafe {
                                 mm_slice.write_at(kvec_str.as_bytes(), start_pos + header_len);
                             }
                         } else {
                             // end of iteration
+                            #[cfg(kmertools_verif)]
+                            ktio::verif::worker_exit();
                             break;
                         }
                     }
@@ -216,6 +226,27 @@ impl OligoComputer {
         });
 
         Ok(())
+    }
+
+    /// verification access to the private entry points
+    #[cfg(kmertools_verif)]
+    pub fn verif_vectorise_one(&self, seq: &[u8]) -> Vec<f64> {
+        self.vectorise_one(seq)
+    }
+
+    #[cfg(kmertools_verif)]
+    pub fn verif_vectorise_batch(&self) -> Result<(), String> {
+        self.vectorise_batch()
+    }
+
+    #[cfg(kmertools_verif)]
+    pub fn verif_vectorise_mmap(&self) -> Result<(), String> {
+        self.vectorise_mmap()
+    }
+
+    #[cfg(kmertools_verif)]
+    pub fn verif_header(&self) -> Vec<String> {
+        self.get_header()
     }
 
     fn vectorise_one(&self, seq: &[u8]) -> Vec<f64> {
